@@ -526,6 +526,23 @@ class PESim(object):
             al = max(self.salign, 0x1000)
             kw["addr"] = ((last_end + al - 1) & ~(al - 1)) + al * (1 + seed % 3)   # gap before the section
         self._first_offset(kw)
+        if self.sections and "offset" not in kw and (mode >> 4) % 4 in (1, 2):
+            # explicit file offset (add_section's `offset` argument, as vm2pe uses it): either beyond the
+            # current end of the raw data, leaving a hole, or inside an existing hole -- so that the order of
+            # the section table differs from the order of the raw data
+            need = rawsize if rawsize is not None else datalen
+            need = (max(need, 1) + self.falign - 1) & ~(self.falign - 1)
+            spans = sorted((o.offset, o.offset + o.rawsize) for o in self.sections if o.rawsize)
+            if spans:
+                if (mode >> 4) % 4 == 1:
+                    end = (spans[-1][1] + self.falign - 1) & ~(self.falign - 1)
+                    kw["offset"] = end + self.falign * (2 + seed % 3) + need
+                else:
+                    for (a0, a1), (b0, b1) in zip(spans, spans[1:]):
+                        start = (a1 + self.falign - 1) & ~(self.falign - 1)
+                        if b0 - start >= need:
+                            kw["offset"] = start
+                            break
         sec = self.api("SHList.add_section", pe.SHList.add_section, name=name, data=data, **kw)
         if vsize is not None:
             sec.size = vsize
